@@ -74,14 +74,41 @@ def near_boundary(s, xs_u, ys_u, band):
     return out
 
 
+def outline_error(path, s, which, U, fr, ox, oy):
+    """Largest relative distance of the points of a curved outline (every Bezier segment sampled at 9 parameters) from the
+    circle / ellipse it stands for; `which` selects the inner (1) or outer (2) outline of an annulus, 0 a plain shape."""
+    ts = np.linspace(0.0, 1.0, 9)
+    pts = []
+    for seg, _code in path.iter_bezier():
+        pts.extend(seg(ts))
+    pts = np.asarray(pts) / SCALE
+    xu = (pts[:, 0] + ox) / fr.scale * U - s.get('cx', 0)
+    yu = (pts[:, 1] + oy) / fr.scale * U - s.get('cy', 0)
+    k = s['k']
+    if k in ('circle', 'cannulus'):
+        r = s['r'] if k == 'circle' else (min(s['r1'], s['r2']) if which == 1 else max(s['r1'], s['r2']))
+        q = np.hypot(xu, yu) / r
+    else:
+        if k == 'ellipse':
+            w, h = s['w'], s['h']
+        else:
+            inner_first = s['w1'] < s['w2']
+            w, h = (s['w1'], s['h1']) if (which == 1) == inner_first else (s['w2'], s['h2'])
+        d = s['d']
+        c, sn = d[0] / d[2], d[1] / d[2]
+        u, v = c * xu + sn * yu, sn * xu - c * yu
+        q = np.sqrt((2 * u / w) ** 2 + (2 * v / h) ** 2)
+    return float(np.abs(q - 1.0).max())
+
+
 def check_patch(ctx, s, win, wlo, whi, idx, rnd, pid='C18'):
     U = 2
-    ox, oy = rnd.choice([(0, 0), (0, 0), (1, 1), (-3.5, 2), (100, -50), (0.5, 0.5)])
+    ox, oy = rnd.choice([(0, 0), (0, 0), (1, 1), (-3.5, 2), (100, -50), (0.5, 0.5), (0, 11.25), (4.5, 0)])
     fr = geom.Frame(U, 1.0, 0.0, 0.0, rnd.randint(0, 5))
     if s['k'] == 'polygon' and idx % 2 == 0:
         # integer-typed vertices (scale 2 makes every half-pixel lattice value an integer) drawn with a fractional origin
         fr = geom.Frame(U, 2.0, 0.0, 0.0, 0, ints=True)
-        ox, oy = rnd.choice([(0.5, 0.25), (-3.5, 2.75), (0, 0)])
+        ox, oy = rnd.choice([(0.5, 0.25), (-3.5, 2.75), (0, 0), (0, 2.75), (0.5, 0)])
     case = {'shape': s, 'origin': [ox, oy], 'frame': vars(fr)}
     try:
         if idx % 4 == 1:
@@ -115,11 +142,20 @@ def check_patch(ctx, s, win, wlo, whi, idx, rnd, pid='C18'):
             return True
         big, small = (paths[0], paths[1]) if abs(a0) > abs(a1) else (paths[1], paths[0])
         inside = big.contains_points(pts) & ~small.contains_points(pts)
+        curved = [(big, 2), (small, 1)] if s['k'] in BEZIER else []
     else:
         if len(paths) != 1:
             ctx.violation(f'{pid}|paths|{s["k"]}', f'artist has {len(paths)} sub-paths', case)
             return True
         inside = paths[0].contains_points(pts)
+        curved = [(paths[0], 0)] if s['k'] in BEZIER else []
+    for pth, which in curved:
+        # the curve itself (not only the lattice positions) stays within the spline approximation error of the true outline
+        err = outline_error(pth, s, which, U, fr, ox, oy)
+        if not err < 1e-3:
+            ctx.violation(f'{pid}|curve|{kind_sig(s)}|{("plain", "inner", "outer")[which]}',
+                          f'the {("", "inner ", "outer ")[which]}outline departs from the true curve by {err:.3g} of its radius (spline tolerance 1e-3)', case)
+            return True
     ctx.dontcare += int((~care).sum())
     bad = np.nonzero(care & (inside.astype(int) != model))[0]
     if len(bad):
@@ -139,7 +175,7 @@ def others(ctx, rnd):
     n = 0
     for k in range(40):
         x, y = rnd.randint(-20, 20) / 2, rnd.randint(-20, 20) / 2
-        ox, oy = rnd.choice([(0, 0), (1, 1), (-3.5, 2), (100, -50)])
+        ox, oy = rnd.choice([(0, 0), (1, 1), (-3.5, 2), (100, -50), (0, 7.25), (2.5, 0)])
         with warnings.catch_warnings():
             warnings.simplefilter('ignore')
             a = R.PointPixelRegion(PixCoord(x, y)).as_artist(origin=(ox, oy))
@@ -193,7 +229,7 @@ def plot_routes(ctx, rnd):
             return np.asarray(a.get_xydata()).round(9).tolist()
         return [float(v) for v in a.get_position()] + [a.get_text()]
     for reg in regs:
-        for origin in ((0, 0), (3.5, -2)):
+        for origin in ((0, 0), (3.5, -2), (0, 4.25)):
             kw = {'origin': origin}
             extra = {'color': 'magenta'} if isinstance(reg, (R.PointPixelRegion, R.TextPixelRegion)) else {'edgecolor': 'magenta', 'linewidth': 3}
             with warnings.catch_warnings():
@@ -247,6 +283,9 @@ def kwargs_replay(ctx):
                   'Text': [('text', lambda: R.TextPixelRegion(PixCoord(1, 2), 'x', visual=RegionVisual(vis)))]}[art]
         for rname, mk in makers:
             reg = mk()
+            # every other pair of states the caller's numbers are zeros: a keyword given as 0 is still given
+            Cv = dict(C, linewidth=0.0, markersize=0.0, rotation=0.0) if (n // 2) % 2 else C
+            caller = {k: Cv[k] for k in st['caller'] if k != 'zz'}
             with warnings.catch_warnings():
                 warnings.simplefilter('ignore')
                 if n % 2:
@@ -263,7 +302,7 @@ def kwargs_replay(ctx):
                     continue
                 got = getattr(a, getters[key])()
                 if src == 'C':
-                    exp = C[key]
+                    exp = Cv[key]
                 elif src == 'V':
                     exp = {'edgecolor': V['color'], 'markeredgecolor': V['color'], 'color': V['color'], 'linewidth': V['linewidth'],
                            'markersize': V['symsize'], 'size': V['fontsize'], 'rotation': V['textangle']}[key]
